@@ -444,4 +444,36 @@ def runOps : Slot → List OpRun → List State
   | _, [] => []
   | nx, o :: rest => (run o.c (initWith o.c nx) o.sched) :: runOps (run o.c (initWith o.c nx) o.sched).nxt rest
 
+/-! ## How the operation's value is stored in the source future and read back by the adapter
+
+The machines above carry the operation's outcome as `payload` (`val v`).  Below that abstraction the adapter's
+`future<T>` may have been constructed *in place* from a `future<T&>` returned by the source factory (`ReturnsFuture`
+admits it): both share one layout, and the state tag decides how `future<T>::value()` reads the union. -/
+
+inductive FState where
+  | notValue | value | valueRef | exception
+  deriving DecidableEq, Repr, Inhabited
+
+inductive SrcFlavour where
+  | byValue        -- the factory returns a `future<T>`
+  | refPromise     -- a `future<T&>` resolved through its promise (`future::set_ref`)
+  | refStatic      -- an already resolved `future<T&>::set_value(x)` (`__SetReferenceTag` constructor)
+  deriving DecidableEq, Repr, Inhabited
+
+/-- the state tag a source holding a value ends up with; `asIs` = the pinned `__SetReferenceTag` constructor, which
+stored the address under `State::value` -/
+def storedState (asIs : Bool) : SrcFlavour → FState
+  | SrcFlavour.byValue => FState.value
+  | SrcFlavour.refPromise => FState.valueRef
+  | SrcFlavour.refStatic => if asIs then FState.value else FState.valueRef
+
+/-- `future<T>::value()` on the adapter's future: `v` = the operation's value, `a` = the bits of the address of the cell a
+reference source refers to.  `State::value` reads the union as an inline `T` (for a reference source those are the
+pointer bits), `State::value_ref` dereferences the stored pointer. -/
+def readBack (fl : SrcFlavour) (st : FState) (v a : Nat) : Option Nat :=
+  match st with
+  | FState.value => some (match fl with | SrcFlavour.byValue => v | _ => a)
+  | FState.valueRef => some v
+  | _ => none
+
 end Cocls.Callback
